@@ -11,6 +11,7 @@ O10 the and-factoring rewrite of push_xor: four complete input pairings; under a
 O8  the dead-gate sweep has all roots (outputs, every field of the panic record) and follows every operand of every gate kind
 O6  `negated` records exactly (operand, new gate) and (new gate, operand) under the `== 1` test of the other operand
 O11 cross-reference: the merge of panic records has no wire-identity shortcut (C02-P5); such a shortcut differs between de-duplication on / off
+O12 cross-reference: the one-bit primitives compute one Boolean function whatever the gate cache / negation table contain (C01-V12)
 """
 from .. import mir
 from ..core import AnchorMissing, Finding, RuleResult
@@ -774,5 +775,14 @@ def rule_o11(ctx):
     return res
 
 
+def rule_o12(ctx):
+    """Cross-reference: shortcuts inside the one-bit primitives that depend on the cache / the negation table return the same function (C01-V12)."""
+    from . import C01
+    res = RuleResult("O12", "one-bit primitives compute one Boolean function whatever the cache contains (cross-reference to C01-V12)")
+    if _xref(res, "O12", C01.rule_v12(ctx)):
+        res.ok({"verdict": "C01-V12 holds for not / or / eq / mux / adder / multiplier cell / conditional swap"})
+    return res
+
+
 def run(ctx):
-    return ctx.run_rules([rule_o1, rule_o2, rule_o3, rule_o4, rule_o5, rule_o6, rule_o7, rule_o8, rule_o9, rule_o10, rule_o11])
+    return ctx.run_rules([rule_o1, rule_o2, rule_o3, rule_o4, rule_o5, rule_o6, rule_o7, rule_o8, rule_o9, rule_o10, rule_o11, rule_o12])
